@@ -34,6 +34,14 @@ class Workers:
         if kind == "pyd":
             env = dict(os.environ, PYTHONPATH=fw.SRC, PYTHONHASHSEED="0", PYTHONDONTWRITEBYTECODE="1")
             cmd = [sys.executable, os.path.join(C17DIR, "pyd_worker.py"), key[1], key[2]]
+        elif kind == "seq":
+            # the models after a history of Root._pydantic_rebuild calls; key[1] = ((family, mode), ...)
+            env = dict(os.environ, PYTHONPATH=fw.SRC, PYTHONHASHSEED="0", PYTHONDONTWRITEBYTECODE="1")
+            cmd = [sys.executable, os.path.join(C17DIR, "seq_worker.py"), json.dumps([list(x) for x in key[1]])]
+        elif kind == "jsfile":
+            env = dict(os.environ)
+            env.pop("PYTHONPATH", None)
+            cmd = ["python3-vt", os.path.join(C17DIR, "js_worker.py"), key[1]]
         else:
             env = dict(os.environ)
             env.pop("PYTHONPATH", None)
@@ -62,14 +70,27 @@ class Workers:
                 raise RuntimeError("worker %r did not start: %s %s" % (k, line, err))
 
     def ask(self, key, entry, doc):
-        self.ensure([key])
-        p = self.procs[key]
-        p.stdin.write(json.dumps({"entry": entry, "doc": doc}) + "\n")
-        p.stdin.flush()
-        line = p.stdout.readline()
-        if not line:
-            raise RuntimeError("worker %r died: %s" % (key, p.stderr.read()[-1500:]))
-        return json.loads(line)
+        return self.ask_many([key], entry, doc)[0]
+
+    def ask_many(self, keys, entry, doc, extra=None):
+        """The same request to several workers: all written first, then all read (the workers run concurrently)."""
+        self.ensure(keys)
+        req = {"entry": entry, "doc": doc}
+        if extra:
+            req.update(extra)
+        text = json.dumps(req) + "\n"
+        for key in keys:
+            p = self.procs[key]
+            p.stdin.write(text)
+            p.stdin.flush()
+        out = []
+        for key in keys:
+            p = self.procs[key]
+            line = p.stdout.readline()
+            if not line:
+                raise RuntimeError("worker %r died: %s" % (key, p.stderr.read()[-1500:]))
+            out.append(json.loads(line))
+        return out
 
     def close(self):
         for p in self.procs.values():
@@ -86,14 +107,108 @@ ALLKEYS = lambda fam: [("pyd", fam, "strict"), ("pyd", fam, "lax"), ("pyd", "hug
                        ("js", fam, "strict"), ("js", fam, "lax")]
 
 
-def verdicts(fam, entry, doc):
-    W.ensure(ALLKEYS(fam))
-    ps = W.ask(("pyd", fam, "strict"), entry, doc)
-    pl = W.ask(("pyd", fam, "lax"), entry, doc)
-    pdf = W.ask(("pyd", "hugr", "default"), entry, doc)
-    return {"js_strict": W.ask(("js", fam, "strict"), entry, doc), "js_lax": W.ask(("js", fam, "lax"), entry, doc),
+# ---- histories of schema-defining rebuilds (Root._pydantic_rebuild(config, force=True)) in ONE process
+OTHER_FAM = {"hugr": "testing", "testing": "hugr"}
+OTHER_MODE = {"strict": "lax", "lax": "strict"}
+ROOT = {"hugr": "SerialHugr", "testing": "TestingHugr"}
+SEQ_TIER = "quick"
+
+
+def histories(fam, mode, tier=None):
+    """Histories (oldest first) that end in the rebuild (fam, mode).  What is rebuilt before must not matter:
+    another root with the SAME configuration just before; the same root under the other configuration before; the
+    configuration held earlier, left and come back to; the thorough tier adds a repeated rebuild and
+    generate_schema.py's own order rotated to end here."""
+    F, c, G, d = fam, mode, OTHER_FAM[fam], OTHER_MODE[mode]
+    hs = [((G, c), (F, c)),
+          ((F, d), (F, c)),
+          ((F, c), (F, d), (G, d), (F, c))]
+    if (tier or SEQ_TIER) != "quick":
+        order = list(tr.STEPS)
+        i = order.index((F, c))
+        hs += [((F, c), (F, c)), tuple(order[i + 1:] + order[:i + 1]), ((G, d), (G, c), (F, c))]
+    return hs
+
+
+def seq_keys(fam, tier=None, cross=True):
+    """cross=False: only the histories that rebuild this family's root alone (the expected file is then the
+    published one, no further evaluation of the Coq validator is needed)."""
+    return [("seq", h) for mode in ("strict", "lax") for h in histories(fam, mode, tier)
+            if cross or all(f_ == fam for f_, _ in h)]
+
+
+def cross_wanted(case):
+    """Histories that also rebuild the OTHER root cost one more run of the Coq validator per history when the file
+    holds that root (the testing files hold SerialHugr): there they are observed on the documents that tell the
+    configurations apart (an extra member anywhere; unmutated ones) and on a fixed quarter of the others."""
+    if case["fam"] == "hugr" or case["mut"] in ("extra", "none") or case["base"].startswith("corpus:"):
+        return True
+    import zlib
+    return zlib.crc32(json.dumps(case["doc"], sort_keys=True).encode()) % 4 == 0
+
+
+_expected_files = {}
+
+
+def expected_js_key(h):
+    """python-jsonschema worker for the file expected after history h (Python mirror of SchemaSeq.expected; used for
+    reports, shrinking and searches only - the verdict is Coq's): the published file unless the history configured
+    the root of the other family."""
+    fam, mode = h[-1]
+    state = {}
+    for f_, m_ in h:
+        state[f_] = m_
+    other = OTHER_FAM[fam]
+    if state.get(other) is None:
+        return ("js", fam, mode)
+    k = (fam, mode, state[other])
+    if k not in _expected_files:
+        published, _ = tr.read_published(fw.REPO)
+        e, subst = tr.expected_py(published, state, fam, mode)
+        if not subst:
+            _expected_files[k] = None
+        else:
+            import tempfile
+            fd, path = tempfile.mkstemp(prefix="c17-expected-", suffix=".json", dir=fw.WORK_ROOT if os.path.isdir(fw.WORK_ROOT) else None)
+            with os.fdopen(fd, "w") as f:
+                json.dump(e, f)
+            atexit.register(lambda p=path: os.path.exists(p) and os.remove(p))
+            _expected_files[k] = path
+    return ("js", fam, mode) if _expected_files[k] is None else ("jsfile", _expected_files[k])
+
+
+def seq_verdicts(fam, entry, doc, api_wanted=False, tier=None, cross=True):
+    """[{"history", "ok", "api"}] for every history of (fam, strict) and (fam, lax)."""
+    keys = seq_keys(fam, tier, cross)
+    rs = W.ask_many(keys, entry, doc, {"api": bool(api_wanted)})
+    return [{"history": [list(x) for x in key[1]], "ok": r["ok"],
+             "api": r.get("api") if (api_wanted and key[1][-1][1] == "strict") else None, "err": r["err"]}
+            for key, r in zip(keys, rs)]
+
+
+def seq_js(fam, entry, doc, obs, q):
+    """python-jsonschema verdict of the file expected after q's history (for reports / shrinking / signatures)."""
+    key = expected_js_key(tuple(tuple(x) for x in q["history"]))
+    if key[0] == "js":
+        return obs["js_" + key[2]]
+    return W.ask(key, entry, doc)
+
+
+def verdicts(fam, entry, doc, api_wanted=False, cross=True):
+    keys = ALLKEYS(fam)
+    W.ensure(keys + seq_keys(fam))
+    ps, pl, pdf, jss, jsl = W.ask_many(keys, entry, doc)
+    return {"js_strict": jss, "js_lax": jsl,
             "pyd_strict": ps["ok"], "pyd_lax": pl["ok"], "pyd_default": pdf["ok"],
-            "errors": {"strict": ps["err"], "lax": pl["err"], "default": pdf["err"]}}
+            "errors": {"strict": ps["err"], "lax": pl["err"], "default": pdf["err"]},
+            "seqs": seq_verdicts(fam, entry, doc, api_wanted, None, cross)}
+
+
+def api_wanted(case):
+    """The validator object the last rebuild left on the root is observed on documents whose single mutation is an
+    extra member of the ROOT object (the root is rebuilt last, after its configuration was updated; nested models
+    keep cached validators of older configurations on the unchanged tree, see pyd_worker.py)."""
+    return case["mut"] == "extra" and list(case["path"]) == [] and case["entry"] == ROOT[case["fam"]]
 
 
 # ------------------------------------------------------------------------------------- base documents
@@ -388,7 +503,11 @@ class C17(fw.Prop):
             "single-point mutations (member deleted, unknown/other discriminator tag, value of another JSON type, "
             "extra member; plus the named one-way classes: coercible scalar, duplicated set item).  Every case is "
             "judged by the Coq validator on the published AND generated constants (strict+lax), by python-jsonschema "
-            "on the published files and by the pydantic models under strict / lax / as-imported configuration.  "
+            "on the published files and by the pydantic models under strict / lax / as-imported configuration, and by the "
+            "models after histories of Root._pydantic_rebuild calls in one process (per root and configuration: the other "
+            "root with the same configuration just before, the same root under the other configuration before, a "
+            "configuration left and come back to; thorough: three more), against the Coq validator on the file expected "
+            "in the state reached; root-object mutations (extra / missing / wrong-typed member) as a stream of their own.  "
             "non-trivial = mutated, or a document of more than 20 JSON values")
     trusted = [
         "translator harness/translators/schema.py (JSON -> Gallina constants; fails closed on unknown keywords, duplicate keys, unexpected files)",
@@ -398,16 +517,22 @@ class C17(fw.Prop):
         "pydantic's cached nested core schemas (a plain _pydantic_rebuild leaves nested validators on the old config; hugr-py never "
         "decodes with the strict config, it only generates the strict schema from it)",
         "python-jsonschema 4.26 (Draft 2020-12) as the reference for the Coq validator",
+        "rebuild histories: harness/c17/seq_schema.py calls the checkout's own scripts/generate_schema.py write_schema step by "
+        "step (one fresh process per history); harness/c17/seq_worker.py performs a history through Root._pydantic_rebuild only, "
+        "then drops cached core schemas and rebuilds every class with the configuration it carries (writes no configuration)",
     ]
     assumptions = ["JSON Schema draft 2020-12 semantics for the keyword subset occurring in the files; `pattern` only for the semver regex"]
 
     def __init__(self):
         self.info = None
+        self.order_runs = None
 
     # -- translator
     def regenerate(self, ctx):
         path, self.info = tr.regenerate(fw.REPO, fw.COQ, ctx.work)
-        return [os.path.relpath(path, fw.VERIF)]
+        path2, self.order_runs = tr.regenerate_orders(fw.REPO, fw.COQ, ctx.work, self.info,
+                                                      jobs=int(os.environ.get("VERIF_JOBS", "6")))
+        return [os.path.relpath(path, fw.VERIF), os.path.relpath(path2, fw.VERIF)]
 
     # -- cases
     def bases(self, tier):
@@ -432,9 +557,20 @@ class C17(fw.Prop):
             cs.append(mk_case(fam, "corpus:hugr-no-version", "SerialHugr", hugr, "missing", False, ("version",)))
             cs.append(mk_case(fam, "corpus:package-module-no-version", "Package", {"modules": [hugr]}, "missing", False,
                               ("modules", 0, "version")))
+        # seeded C17-h (a rebuild skipped when the previous rebuild, of the OTHER root, had an equal configuration):
+        # an unknown member of the root object must be refused by the strict decoder after every history
+        cs.append(mk_case("hugr", "corpus:hugr-root-extra", "SerialHugr",
+                          {"version": "live", "nodes": [], "edges": [], "zz_extra": 1}, "extra", False, ()))
+        cs.append(mk_case("testing", "corpus:testing-root-extra", "TestingHugr", {"version": "live", "zz_extra": 1},
+                          "extra", False, ()))
+        cs.append(mk_case("hugr", "corpus:hugr-node-extra", "SerialHugr",
+                          {"version": "live", "nodes": [{"parent": 0, "op": "Module", "zz_extra": 1}], "edges": []},
+                          "extra", False, ("nodes", 0)))
         return cs
 
     def generate(self, rng, tier, ctx):
+        global SEQ_TIER
+        SEQ_TIER = tier
         builder, files = self.bases(tier)
         testing = testing_docs(builder + files)
         cases = []
@@ -469,15 +605,29 @@ class C17(fw.Prop):
             rng.shuffle(chosen)
             for cls, one_way, path, thunk in chosen[:per_doc]:
                 cases.append(mk_case(fam, name, entry, thunk(), cls, one_way, path))
+        # members of the ROOT object itself (the class only its own _pydantic_rebuild configures): an extra member
+        # and a wrong-typed / missing one, for documents whose entry is the root of the family
+        roots = [(fam, b) for fam, b in pool if b[1] == ROOT[fam] and len(json.dumps(b[2])) < 6000]
+        rng.shuffle(roots)
+        for fam, (name, entry, doc) in roots[: (6 if quick else 40)]:
+            cases.append(mk_case(fam, name, entry, setp(doc, ("zz_extra",), 1), "extra", False, ()))
+            top = [m for m in all_mutations(doc) if len(m[2]) == 1 and m[0] in ("wrongtype", "missing", "coerce")]
+            rng.shuffle(top)
+            for cls, one_way, path, thunk in top[: (1 if quick else 4)]:
+                cases.append(mk_case(fam, name, entry, thunk(), cls, one_way, path))
         return cases
 
     def observe(self, case, ctx):
-        return verdicts(case["fam"], case["entry"], case["doc"])
+        return verdicts(case["fam"], case["entry"], case["doc"], api_wanted(case), cross_wanted(case))
 
     def literal(self, case, obs, ctx):
         return gapp("CDoc", "FHugr" if case["fam"] == "hugr" else "FTesting", tr.gstring(case["entry"]),
                     gjson_case(case["doc"]), gbool(case["one_way"]), gbool(case["mut"] == "none"), gbool(obs["js_strict"]), gbool(obs["js_lax"]),
-                    gbool(obs["pyd_strict"]), gbool(obs["pyd_lax"]), gbool(obs["pyd_default"]))
+                    gbool(obs["pyd_strict"]), gbool(obs["pyd_lax"]), gbool(obs["pyd_default"]),
+                    fw.glist(fw.gpair(fw.glist(fw.gpair("FHugr" if f_ == "hugr" else "FTesting", gbool(m_ == "strict"))
+                                               for f_, m_ in q["history"]),
+                                      gbool(q["ok"]), fw.gopt(None if q["api"] is None else gbool(q["api"])))
+                             for q in obs["seqs"]))
 
     def nontrivial(self, case, obs):
         return case["mut"] != "none" or sum(1 for _ in find_all(case["doc"], lambda x: True)) > 20
@@ -493,12 +643,26 @@ class C17(fw.Prop):
             if s == p:
                 s, p = obs["js_strict"], obs["pyd_strict"]
             direction = "same" if s == p else ("pydantic-accepts" if p else "schema-accepts")
+            if direction == "same":
+                # only a history of rebuilds makes the decoder and the expected file disagree
+                for q in obs.get("seqs", []):
+                    js = seq_js(case["fam"], case["entry"], case["doc"], obs, q)
+                    if js != q["ok"] and not (case["one_way"] and q["ok"]):
+                        direction = "after-rebuilds:" + ("pydantic-accepts" if q["ok"] else "schema-accepts")
+                        break
+                    if q["api"] and not js:
+                        direction = "after-rebuilds:root-validator-accepts"
+                        break
         return "%s:%s:%s" % (case["mut"], pattern_of(case["entry"], case["path"]), direction)
 
     def py_mon_fails(self, case, obs):
         """Python-side prediction of `mon` failing (python-jsonschema standing in for the Coq validator)."""
         for s_, p_ in ((obs["js_strict"], obs["pyd_strict"]), (obs["js_lax"], obs["pyd_lax"]), (obs["js_lax"], obs["pyd_default"])):
             if (s_ and not p_) or (not case["one_way"] and s_ != p_):
+                return True
+        for q in obs.get("seqs", []):
+            js = seq_js(case["fam"], case["entry"], case["doc"], obs, q)
+            if (js and not q["ok"]) or (not case["one_way"] and js != q["ok"]) or (q["api"] and not js):
                 return True
         return False
 
@@ -582,6 +746,7 @@ class C17(fw.Prop):
         v = info["versions"]
         names = {m[1] for m in v["models"]} | {x[1] for x in info["published_files"]} | {x[1] for x in info["generated_files"]}
         names.add(v["serialization_version"])
+        names |= {x["version"] for run in (self.order_runs or []) for x in run}
         if len(names) != 1 or sorted(p for p, _ in info["published_files"]) != sorted(tr.PREFIXES):
             out.append(("version-mismatch", "theorem version_strings_agree fails: the models, serialization_version() and the "
                         "published file names do not carry one version string",
@@ -612,7 +777,85 @@ class C17(fw.Prop):
             out.append(("schema-drift", "published %s_<v>.json differs from the schema the models define now at %s"
                         % (pre, "; ".join(diffs[:4])), detail))
         ctx.stats["schema_constants"] = {"bytes": os.path.getsize(os.path.join(fw.COQ, "gen", "Schemas.v"))}
+        out += self.order_drift(ctx, tier, info, bool(drift))
         return out
+
+    def order_drift(self, ctx, tier, info, drifted):
+        """Report for theorem C17_rebuild_orders_define_expected_schemas: the first step of each history whose
+        schema is not the expected file (Python mirror of SchemaSeq.expected / schema_equiv o norm; the verdict is
+        Coq's), grouped by (root, configuration, differing paths), shortest history kept; with a document on which
+        the decoder after exactly that history and the expected file disagree, when one is found."""
+        out, groups = [], {}
+        runs = self.order_runs or []
+        for run in runs:
+            state = {}
+            for i, x in enumerate(run):
+                fam, mode = x["step"]
+                state[fam] = mode
+                exp, _ = tr.expected_py(info["published"], state, fam, mode)
+                diffs = schema_diff(norm_py(exp), norm_py(x["schema"]))
+                if diffs:
+                    h = [tuple(y["step"]) for y in run[: i + 1]]
+                    k = (fam, mode, tuple(diffs[:6]))
+                    if k not in groups or len(h) < len(groups[k]):
+                        groups[k] = h
+                    break
+        ctx.stats["rebuild_orders"] = {"histories": len(runs), "steps": sum(len(r) for r in runs),
+                                       "histories_with_unexpected_schema": len(groups)}
+        if drifted:
+            return out        # the files differ from the models already in generate_schema.py's own order: reported above
+        for (fam, mode, diffs), h in sorted(groups.items(), key=lambda kv: (len(kv[1]), kv[0]))[:3]:
+            detail = {"signature": "schema-order:%s:%s" % (fam, mode), "theorem": "C17_rebuild_orders_define_expected_schemas",
+                      "history": [list(x) for x in h], "file": tr.STEP_PREFIX[(fam, mode)], "differing_paths": list(diffs)}
+            hit = self.search_after_history(h, tier)
+            if hit:
+                detail["failing_input"] = hit
+            out.append(("schema-order", "after the rebuilds %s in one process the models define a %s schema that differs "
+                        "from the published file at %s (alone in a fresh process they define the published one)"
+                        % (" -> ".join("%s/%s" % x for x in h), tr.STEP_PREFIX[(fam, mode)], "; ".join(diffs[:4])), detail))
+        return out
+
+    def search_after_history(self, h, tier):
+        """A document on which the decoder after the history h (seq_worker) and the file expected after h
+        (python-jsonschema) disagree: root-level probes first, then unmutated documents and extra members."""
+        fam, mode = h[-1]
+        key, jskey = ("seq", tuple(h)), expected_js_key(tuple(h))
+        known, _ = fw.load_known(self.id)
+        builder, files = self.bases(tier)
+        bases = builder + [f for f in files if len(json.dumps(f[2])) < 9000] + testing_docs(builder + files)
+        cands = [c for c in self.corpus(None) if c["fam"] == fam]
+        for name, entry, doc in sorted(bases, key=lambda b: len(json.dumps(b[2]))):
+            if entry == "TestingHugr" and fam != "testing":
+                continue
+            cands.append(mk_case(fam, name, entry, doc))
+            objs = [p_ for p_, v in find_all(doc, lambda x: isinstance(x, dict))][:12]
+            cands += [mk_case(fam, name, entry, setp(doc, p_ + ("zz_extra",), 1), "extra", False, p_) for p_ in objs]
+
+        def disagrees(c):
+            p_ok, s_ok = W.ask(key, c["entry"], c["doc"])["ok"], W.ask(jskey, c["entry"], c["doc"])
+            if p_ok == s_ok:
+                return None
+            sig = "%s:%s:%s" % (c["mut"], pattern_of(c["entry"], c["path"]), "pydantic-accepts" if p_ok else "schema-accepts")
+            return None if sig in known else (p_ok, s_ok)
+
+        for c in cands[:600]:
+            v = disagrees(c)
+            if v is None:
+                continue
+            cur, progress, steps = c, True, 0
+            while progress and steps < 200:
+                progress = False
+                for smaller, q in self.shrink_candidates(cur, with_path=True):
+                    steps += 1
+                    if disagrees(smaller) == v and not (isinstance(q[-1], str) and
+                            "missing:%s:pydantic-accepts" % pattern_of(smaller["entry"], q) in known):
+                        cur, progress = smaller, True
+                        break
+                    if steps >= 200:
+                        break
+            return {"case": cur, "history": [list(x) for x in h], "expected_schema_accepts": v[1], "pydantic_accepts": v[0],
+                    "configuration": mode}
+        return None
 
     def search_disagreement(self, fam, diffs, tier, info):
         """Documents on which a published file (python-jsonschema) and the models of the checkout disagree, outside
